@@ -13,14 +13,15 @@ def f_of_bits(b, dbl):
 
 class C19(Prop):
     pid = "C19"
-    lean_targets = ["M17.Props.C19"]
+    lean_targets = ["M17.Props.C19", "M17.Props.C19I"]
     theorems = ["M17.C19.ring_key", "M17.C19.fir_step", "M17.C19.fir_eq_convolution", "M17.C19.fir_reset", "M17.C19.fir_run_append",
-                "M17.C19.iir_difference_equation", "M17.C19.iir_state_recurrence", "M17.C19.nsdft_closed_form",
+                "M17.C19.iir_difference_equation", "M17.C19.iir_state_recurrence", "M17.C19I.iir_three_any_state", "M17.C19I.iir_difference_equation_all",
+                "M17.C19I.iir_start_from_rest", "M17.C19.nsdft_closed_form",
                 "M17.C19.taps_exact", "M17.C19.taps_symmetric", "M17.C19.cascade_nyquist", "M17.C19.gen_tx_scale", "M17.C19.corr_a0_one"]
     level_text = ("Lean 4 theorems over ANY commutative ring (exact arithmetic), every tap count and input length: the modelled FIR (circular "
                   "buffer, code's index walk) outputs the dot product of its taps with the last N inputs from a zero state — i.e. the "
                   "convolution — reset restores that state, and feeding a concatenation equals feeding the pieces through the same object; the "
-                  "direct-form-II IIR realises its difference equation; the un-damped sliding DFT's value is sum_m x[n-m] w^(m+1) when w^N = 1 "
+                  "direct-form-II IIR realises its difference equation at every time index of every input sequence from every internal state (C19I); the un-damped sliding DFT's value is sum_m x[n-m] w^(m+1) when w^N = 1 "
                   "(direct DFT of the latest window up to a unit phase). Tap tables: exact values of all four sets in the current sources; "
                   "symmetry about the peak and the Nyquist property of every TX x RX cascade (side taps < 0.5 %, sum < 2 %) by kernel "
                   "evaluation on exact integers. NOT shown by proof: floating-point rounding ('within numerical tolerance') and the damped "
